@@ -83,7 +83,7 @@ static int        g_obs_walk = 0, g_obs_owner = 0, g_obs_released = 0, g_obs_aba
 static int        g_check_errors = 1;  /* secondary oracle: unexpected mi error callback */
 static int        g_threads_used = 0;
 #define NREL 6
-static struct { uint8_t* p; size_t req, usable; int linked; } g_rel[NREL]; static int g_nrel;   /* recently released blocks (fault targets) */
+static struct { uint8_t* p; size_t req, usable; int linked; int valid; mi_page_t* page; } g_rel[NREL]; static int g_nrel;   /* recently released blocks (fault targets) */
 static int        g_pending_links = 0;      /* forged links not yet reached by the allocator */
 static int        g_faulted = 0;            /* debug builds: stop the branch after the first reported fault */
 static int        g_pending[NHEAPS + 1];    /* heap slot has (possibly) pending cross-thread frees: C12 claims nothing about extra reports then */
@@ -276,6 +276,26 @@ static int run_observers(void) {
   return -1;
 }
 
+/* a released block stays a fault target only while its page has continuously held at least one other live block (so the
+   page itself was never released: "a second free after the whole area was released" is outside the claim) */
+static int rel_page_live(mi_page_t* page, const uint8_t* self) {
+  for (int i = 0; i < vf_nlive; i++) if (vf_live[i].p != self && vf_live[i].req <= MI_MEDIUM_OBJ_SIZE_MAX && _mi_ptr_page(vf_live[i].p) == page) return 1;
+  return 0;
+}
+static void rel_record(const vf_blk_t* b) {
+  if (!g_prof->faults) return;
+  if (g_nrel == NREL) { memmove(&g_rel[0], &g_rel[1], sizeof(g_rel[0]) * (NREL - 1)); g_nrel--; }
+  g_rel[g_nrel].p = b->p; g_rel[g_nrel].req = b->req; g_rel[g_nrel].usable = b->usable; g_rel[g_nrel].linked = 0;
+  g_rel[g_nrel].page = _mi_ptr_page(b->p);
+  g_rel[g_nrel].valid = (b->req <= MI_MEDIUM_OBJ_SIZE_MAX && rel_page_live(g_rel[g_nrel].page, b->p));
+  g_nrel++;
+}
+static void rel_revalidate(void) { for (int k = 0; k < g_nrel; k++) if (g_rel[k].valid && !rel_page_live(g_rel[k].page, g_rel[k].p)) g_rel[k].valid = 0; }
+#if MI_DEBUG
+/* debug builds: once a forged link has been reported, internal assertions may follow: the branch ends with the report */
+static void dbg_error_hook(int err) { if (g_pending_links > 0 && err == EFAULT) { VF_INC(counters[7]); vf_exit_branch(); } }
+#endif
+
 /* ---------------- C13 monitor: purge / decommit / unmap never touch a live block ------------------- */
 static int g_transit = -1;      /* model index of a block that is legitimately being released by the running call */
 static void purge_monitor(int kind, int arg, uintptr_t addr, size_t len) {
@@ -294,6 +314,7 @@ static void purge_monitor(int kind, int arg, uintptr_t addr, size_t len) {
 /* ---------------- node oracle ------------------------------------------------------------------ */
 static int vf_check_node(void) {
   if (vf_model_check_all("node") != 0) return -1;
+  if (g_prof->faults) rel_revalidate();
   if (g_pending_links > 0 && vf_err_count > 0 && vf_err_last == EFAULT) {
     /* the allocator reached a forged link and reported it instead of following it */
     VF_INC(counters[7]); g_pending_links -= 1; vf_err_count = 0;
@@ -350,7 +371,7 @@ static int vf_apply(vf_op_t op) {
       vf_blk_t b = vf_live[i];
       dirty_block(&b);
       vf_model_remove_ordered(i);
-      if (g_prof->faults) { if (g_nrel == NREL) { memmove(&g_rel[0], &g_rel[1], sizeof(g_rel[0]) * (NREL - 1)); g_nrel--; } g_rel[g_nrel].p = b.p; g_rel[g_nrel].req = b.req; g_rel[g_nrel].usable = b.usable; g_rel[g_nrel].linked = 0; g_nrel++; }
+      rel_record(&b); rel_revalidate();
       if (op.code == OP_REMOTE_FREE) { targ_t t = { 0, b.p, 0, { 0, 0 } }; run_helper(&t); PENDING(b.heap) = 1; if (b.heap < 0) for (int h = 0; h < NHEAPS; h++) g_pending[h] = 1; }
       else if (op.code == OP_FREE_SIZE) {
         if (b.align) mi_free_size_aligned(b.p, b.req, b.align); else mi_free_size(b.p, b.req);
@@ -384,8 +405,7 @@ static int vf_apply(vf_op_t op) {
       VF_INC(checks); VF_INC(nontrivial);
       if (vf_err_count < 1 || vf_err_last != EFAULT) { vf_violation("overflow-unreported", "a byte written just past the requested size (%zu) of %p was not reported when the block was freed (%d reports, last code %d), expected EFAULT", b.req, b.p, vf_err_count, vf_err_last); return 1; }
       vf_err_count = 0;
-      if (g_nrel == NREL) { memmove(&g_rel[0], &g_rel[1], sizeof(g_rel[0]) * (NREL - 1)); g_nrel--; }
-      g_rel[g_nrel].p = b.p; g_rel[g_nrel].req = b.req; g_rel[g_nrel].usable = b.usable; g_rel[g_nrel].linked = 0; g_nrel++;
+      rel_record(&b); rel_revalidate();
 #if MI_DEBUG
       g_faulted = 1;
 #endif
@@ -567,9 +587,10 @@ static int vf_list_ops(vf_op_t* out, int max) {
     if (g_faulted) return 0;      /* debug builds: internal assertions after a detected error are outside the claim: the branch ends here */
     for (int k = 0; k < g_nrel; k++) {
       /* the released block must not be live again, and for the double free its page must still hold another live block */
-      int relive = 0, page_live = 0;
-      for (int i = 0; i < vf_nlive; i++) { if (vf_live[i].p == g_rel[k].p) relive = 1; else if (_mi_ptr_page(vf_live[i].p) == _mi_ptr_page(g_rel[k].p)) page_live = 1; }
-      if (relive || !page_live) continue;
+      int relive = 0;
+      for (int i = 0; i < vf_nlive; i++) if (vf_live[i].p == g_rel[k].p) relive = 1;
+      if (relive) g_rel[k].valid = 0;          /* handed out again: no longer a released block */
+      if (!g_rel[k].valid) continue;
       if (!g_rel[k].linked && g_pending_links == 0) PUSH(OP_DFREE, k, 0);
       if (!g_rel[k].linked) { PUSH(OP_LINK, k, 0); PUSH(OP_LINK, k, 1); }
     }
@@ -672,6 +693,9 @@ int main(int argc, char** argv) {
   vf_shared_init(deadline);
   if (!vf_verbose) mi_register_output(&vf_out_null, NULL);
   mi_register_error(&vf_error_cb, NULL);
+#if MI_DEBUG
+  vf_error_hook = &dbg_error_hook;
+#endif
 
   if (replay) {
     if (vf_load_replay(replay) < 0) return 2;
